@@ -64,6 +64,81 @@ package types
 //@   (and (= (totalLockedAmt s) (lockSum s)) (= (totalSpentAmt s) (spentSum s)) (= (select (select b esc) (entDenom s)) (totalLockedAmt s))))
 //@ end
 
+// ---------------------------------------------------------------- purchase orders, queues, whitelist (abstract view)
+//
+// Orders live under kPO(id); an order is in the raised / accepted queue iff the queue key kRaised(id) / kAccepted(id) is
+// present (the queue value is the 8-byte id itself, which is what the iteration helpers decode).  The module
+// invariants ENT_Q (queues mirror the order status), ENT_FRESH (ids from the highest id upwards are unused) and
+// ENT_PO_WF (queued orders can be completed without panicking) are required and re-established by every
+// state-changing entry point of the module.
+
+//@ prelude
+//@ ;;@ need-type github.com/unification-com/mainchain/x/enterprise/types.EnterpriseUndPurchaseOrder
+//@ ;;@ need-type github.com/unification-com/mainchain/x/enterprise/types.PurchaseOrderDecision
+//@ ;;@ need-marshal github.com/unification-com/mainchain/x/enterprise/types.EnterpriseUndPurchaseOrder
+//@ (define-fun poHas ((s (Array enterprise.Key (Slice Int))) (id Int)) Bool (not (sl.nil (select s (kPO id)))))
+//@ (define-fun poGet ((s (Array enterprise.Key (Slice Int))) (id Int)) enterprise.EnterpriseUndPurchaseOrder (unmarshal.enterprise.EnterpriseUndPurchaseOrder (select s (kPO id))))
+//@ (define-fun poPut ((s (Array enterprise.Key (Slice Int))) (p enterprise.EnterpriseUndPurchaseOrder)) (Array enterprise.Key (Slice Int)) (store s (kPO (enterprise.EnterpriseUndPurchaseOrder.Id p)) (marshal.enterprise.EnterpriseUndPurchaseOrder p)))
+//@ (define-fun poStatus ((s (Array enterprise.Key (Slice Int))) (id Int)) Int (enterprise.EnterpriseUndPurchaseOrder.Status (poGet s id)))
+//@ (define-fun raisedHas ((s (Array enterprise.Key (Slice Int))) (id Int)) Bool (not (sl.nil (select s (kRaised id)))))
+//@ (define-fun acceptedHas ((s (Array enterprise.Key (Slice Int))) (id Int)) Bool (not (sl.nil (select s (kAccepted id)))))
+//@ (define-fun wlHas ((s (Array enterprise.Key (Slice Int))) (a BytesV)) Bool (not (sl.nil (select s (kWhitelist a)))))
+//@ (define-fun entHighestSet ((s (Array enterprise.Key (Slice Int)))) Bool (not (sl.nil (select s kEHighest))))
+//@ (define-fun entHighestIs ((s (Array enterprise.Key (Slice Int))) (v Int)) Bool (and (not (sl.nil (select s kEHighest))) (= (sl.len (select s kEHighest)) 8) (= (u64dec (select s kEHighest)) v)))
+//@ (define-fun raisedKeyId ((k enterprise.Key)) Int (kRaised.id k))
+//@ (define-fun acceptedKeyId ((k enterprise.Key)) Int (kAccepted.id k))
+//@ (define-fun poKeyId ((k enterprise.Key)) Int (kPO.id k))
+//@ ; a queue entry carries its own id as an 8-byte value
+//@ (define-fun qval ((b (Slice Int)) (id Int)) Bool (and (not (sl.nil b)) (= (sl.len b) 8) (= (u64dec b) id)))
+//@ (define-fun ENT_QREP ((s (Array enterprise.Key (Slice Int)))) Bool (and
+//@    (forall ((i Int)) (! (=> (raisedHas s i) (and (<= 0 i) (< i 18446744073709551616) (qval (select s (kRaised i)) i))) :pattern ((select s (kRaised i)))))
+//@    (forall ((i Int)) (! (=> (acceptedHas s i) (and (<= 0 i) (< i 18446744073709551616) (qval (select s (kAccepted i)) i))) :pattern ((select s (kAccepted i)))))))
+//@ ; prefixes used for iteration (justified by the C18 prefix/order lemmas): orders, raised queue, accepted queue ascend by id
+//@ (declare-datatypes ((enterprise.Prefix 0)) (((pPO) (pRaised) (pAccepted) (pOtherE (pOtherE.n Int)))))
+//@ (declare-fun ent_prefix ((Slice Int)) enterprise.Prefix)
+//@ (define-fun ent_inprefix ((p enterprise.Prefix) (k enterprise.Key)) Bool
+//@   (ite ((_ is pPO) p) ((_ is kPO) k) (ite ((_ is pRaised) p) ((_ is kRaised) k) (ite ((_ is pAccepted) p) ((_ is kAccepted) k) false))))
+//@ (define-fun ent_keylt ((a enterprise.Key) (b enterprise.Key)) Bool
+//@   (ite (and ((_ is kPO) a) ((_ is kPO) b)) (< (kPO.id a) (kPO.id b))
+//@   (ite (and ((_ is kRaised) a) ((_ is kRaised) b)) (< (kRaised.id a) (kRaised.id b))
+//@   (ite (and ((_ is kAccepted) a) ((_ is kAccepted) b)) (< (kAccepted.id a) (kAccepted.id b)) false))))
+//@ ; queues mirror the status of the stored orders; every order is stored under its own id
+//@ (define-fun ENT_Q ((s (Array enterprise.Key (Slice Int)))) Bool (and (ENT_QREP s)
+//@    (forall ((i Int)) (! (=> (poHas s i) (and (<= 0 i) (< i 18446744073709551616) (= (enterprise.EnterpriseUndPurchaseOrder.Id (poGet s i)) i) (<= 1 (poStatus s i)) (<= (poStatus s i) 4))) :pattern ((select s (kPO i)))))
+//@    (forall ((i Int)) (! (= (raisedHas s i) (and (poHas s i) (= (poStatus s i) 1))) :pattern ((select s (kRaised i))) :pattern ((select s (kPO i)))))
+//@    (forall ((i Int)) (! (= (acceptedHas s i) (and (poHas s i) (= (poStatus s i) 2))) :pattern ((select s (kAccepted i))) :pattern ((select s (kPO i)))))))
+//@ ; ids from the stored highest id upwards have never been used
+//@ (define-fun ENT_FRESH ((s (Array enterprise.Key (Slice Int)))) Bool (and (=> (entHighestSet s) (= (sl.len (select s kEHighest)) 8))
+//@    (forall ((i Int)) (! (=> (and (entHighestSet s) (>= i (u64dec (select s kEHighest)))) (and (not (poHas s i)) (not (raisedHas s i)) (not (acceptedHas s i)))) :pattern ((select s (kPO i))) :pattern ((select s (kRaised i))) :pattern ((select s (kAccepted i)))))))
+//@ ; a queued (raised or accepted) order can be completed: a positive amount below 2^255 in the module's denomination, a well-formed purchaser
+//@ (define-fun poCompletable ((p enterprise.EnterpriseUndPurchaseOrder) (dn Str)) Bool (and (not (= (sdk.Coin.Amount (enterprise.EnterpriseUndPurchaseOrder.Amount p)) nilInt)) (< 0 (Amt (enterprise.EnterpriseUndPurchaseOrder.Amount p))) (< (Amt (enterprise.EnterpriseUndPurchaseOrder.Amount p)) P255) (= (sdk.Coin.Denom (enterprise.EnterpriseUndPurchaseOrder.Amount p)) dn) (validBech32 (enterprise.EnterpriseUndPurchaseOrder.Purchaser p))))
+//@ (define-fun ENT_PO_WF ((s (Array enterprise.Key (Slice Int)))) Bool
+//@    (forall ((i Int)) (! (=> (and (poHas s i) (or (= (poStatus s i) 1) (= (poStatus s i) 2))) (poCompletable (poGet s i) (entDenom s))) :pattern ((select s (kPO i))))))
+//@ ; authorised enterprise signers: the well-formed entries of the comma-separated parameter, compared as addresses
+//@ (define-fun isEntSignerIn ((xs (Slice Str)) (a BytesV)) Bool
+//@   (exists ((i Int)) (and (<= 0 i) (< i (sl.len xs)) (validBech32 (select (sl.arr xs) i)) (= (bytesval (addrOf (select (sl.arr xs) i))) a))))
+//@ ; number of decisions of kind v among the first n (recursive specification function, unfolded at use sites)
+//@ (declare-fun decCount ((Array Int enterprise.PurchaseOrderDecision) Int Int) Int)
+//@ (define-fun decCount.def ((ds (Array Int enterprise.PurchaseOrderDecision)) (n Int) (v Int)) Int
+//@   (ite (<= n 0) 0 (+ (decCount ds (- n 1) v) (ite (= (enterprise.PurchaseOrderDecision.Decision (select ds (- n 1))) v) 1 0))))
+//@ (assert (forall ((ds (Array Int enterprise.PurchaseOrderDecision)) (n Int) (v Int)) (! (and (<= 0 (decCount ds n v)) (<= (decCount ds n v) (imax 0 n))) :pattern ((decCount ds n v)))))
+//@ ; the tally rule of the statement (C03), clause by clause: 3 = rejected, 2 = accepted, 1 = still raised
+//@ (define-fun poAccepts ((p enterprise.EnterpriseUndPurchaseOrder)) Int (decCount (sl.arr (enterprise.EnterpriseUndPurchaseOrder.Decisions p)) (sl.len (enterprise.EnterpriseUndPurchaseOrder.Decisions p)) 2))
+//@ (define-fun poRejects ((p enterprise.EnterpriseUndPurchaseOrder)) Int (decCount (sl.arr (enterprise.EnterpriseUndPurchaseOrder.Decisions p)) (sl.len (enterprise.EnterpriseUndPurchaseOrder.Decisions p)) 3))
+//@ (define-fun verdict ((p enterprise.EnterpriseUndPurchaseOrder) (now Int) (limit Int) (minAcc Int) (nSigners Int)) Int
+//@   (ite (and (>= (- now (enterprise.EnterpriseUndPurchaseOrder.RaiseTime p)) limit) (< (poAccepts p) minAcc)) 3
+//@   (ite (> (poRejects p) (- nSigners minAcc)) 3
+//@   (ite (>= (poAccepts p) minAcc) 2 1))))
+//@ ; what the tally does to one order that was raised at entry (s0 -> s), and nothing else about it
+//@ (define-fun tallied ((s0 (Array enterprise.Key (Slice Int))) (s (Array enterprise.Key (Slice Int))) (i Int) (now Int) (limit Int) (minAcc Int) (nSigners Int)) Bool
+//@   (let ((p0 (poGet s0 i)) (v (verdict (poGet s0 i) now limit minAcc nSigners)))
+//@     (and (poHas s i) (= (poStatus s i) v)
+//@          (= (select s (kPO i)) (ite (= v 1) (select s0 (kPO i)) (marshal.enterprise.EnterpriseUndPurchaseOrder (mk.enterprise.EnterpriseUndPurchaseOrder (enterprise.EnterpriseUndPurchaseOrder.Id p0) (enterprise.EnterpriseUndPurchaseOrder.Purchaser p0) (enterprise.EnterpriseUndPurchaseOrder.Amount p0) v (enterprise.EnterpriseUndPurchaseOrder.RaiseTime p0) now (enterprise.EnterpriseUndPurchaseOrder.Decisions p0)))))
+//@          (= (raisedHas s i) (= v 1))
+//@          (=> (= v 1) (= (select s (kRaised i)) (select s0 (kRaised i))))
+//@          (ite (= v 2) (qval (select s (kAccepted i)) i) (= (select s (kAccepted i)) (select s0 (kAccepted i)))))))
+//@ end
+
 // ---------------------------------------------------------------- store keys (byte level)
 
 //@ func GetPurchaseOrderIDBytes(purchaseOrderID) (bz)
@@ -277,3 +352,15 @@ package types
 //@ global HighestPurchaseOrderIDKey abstracts ent_key(HighestPurchaseOrderIDKey) == kEHighest
 //@ global TotalSpentEFUNDKey abstracts ent_key(TotalSpentEFUNDKey) == kTotalSpent
 //@ global TotalLockedUndKey abstracts ent_key(TotalLockedUndKey) == kTotalLocked
+//@ global PurchaseOrderIDKeyPrefix abstracts ent_prefix(PurchaseOrderIDKeyPrefix) == pPO
+//@ global RaisedPoPrefix abstracts ent_prefix(RaisedPoPrefix) == pRaised
+//@ global AcceptedPoPrefix abstracts ent_prefix(AcceptedPoPrefix) == pAccepted
+
+// ---------------------------------------------------------------- status / action predicates (executed at the call site)
+
+//@ func ValidPurchaseOrderStatus(status)
+//@   inline
+//@ func ValidPurchaseOrderAcceptRejectStatus(status)
+//@   inline
+//@ func ValidWhitelistAction(action)
+//@   inline
